@@ -290,9 +290,15 @@ def judge_composite(name, g, glyphs, og, glyf, opts, bump):
         expected = leaves(glyphs, name)
     else:
         expected = [(c["base"], R.mat(c["t"])) for c in g["components"] if c["base"] in glyphs]
-    overflow = any(abs(v) > 2 for _, m in expected for v in m[:4])
+    # a 2x2 entry beyond +-2 cannot be stored; a product that lands on +-2 within float noise
+    # (flattening multiplies in floating point, the reference in exact rationals) is on the
+    # boundary: either outcome is accepted there
+    overflow = any(abs(v) > 2 + 1e-9 for _, m in expected for v in m[:4])
+    boundary = not overflow and any(abs(v) > 2 - 1e-9 for _, m in expected for v in m[:4])
+    if boundary:
+        bump("overflow_boundary_composites")
     if not og.isComposite():
-        if overflow:
+        if overflow or boundary:
             bump("overflow_decomposed")
             return violations
         if not expected:
@@ -326,7 +332,7 @@ def judge_composite(name, g, glyphs, og, glyf, opts, bump):
         got2 = getattr(c, "transform", ((1, 0), (0, 1)))
         got2 = (got2[0][0], got2[0][1], got2[1][0], got2[1][1])
         for j in range(4):
-            ev = min(float(m[j]), 32767 / 16384.0)
+            ev = max(-2.0, min(float(m[j]), 32767 / 16384.0))
             if abs(got2[j] - ev) > 2.0 ** -14 + 1e-9:
                 violations.append({"mech": "component_2x2", "detail": {
                     "glyph": name, "index": i, "expected": [float(v) for v in m[:4]],
